@@ -47,7 +47,7 @@ Definition repaired_chain : fixes := {| fix_rollback := true; fix_defer := true;
 Definition repaired : fixes := {| fix_rollback := true; fix_defer := true; fix_chain := true; fix_eager := true |}.
 
 (* the tree the correspondence check is run against (one line to change when /repo is repaired) *)
-Definition tree : fixes := repaired_chain.
+Definition tree : fixes := repaired.
 
 Inductive outcome :=
 | Parsed (cfg : cfgmap)                       (* parse_section('root') is True *)
